@@ -59,13 +59,16 @@ pub struct Case {
     pub chunk: usize,
     /// run on a multi-threaded runtime with real time instead of the paused clock
     pub multi_thread: bool,
-    /// the sending link's initial delivery-count (client senders only): 0, or a few below 2^32
+    /// the sending link's initial delivery-count: 0, or a few below 2^32
     pub initial_dc: u32,
     /// per message: the application polls `recv` this many times and drops the future (a `select!` that
     /// took another branch, a time-out) before it calls `recv` for good; 0 = never
     pub recv_drop: Vec<u8>,
     /// the receiving link (client receivers only) accepts every delivery itself as `recv` returns it
     pub auto_accept: bool,
+    /// manual credit: before a `recv` the application states the credit it still has out once more
+    /// (`set_credit(credit left)`), with whatever is under way still unread in the link's queue
+    pub restate: bool,
 }
 
 impl Case {
@@ -73,7 +76,7 @@ impl Case {
         json!({"client_sends": self.client_sends, "sizes": self.sizes, "bodies": self.bodies, "sections": self.sections, "client_max_frame": self.client_max_frame, "listener_max_frame": self.listener_max_frame,
             "client_windows": [self.client_windows.0, self.client_windows.1], "listener_windows": [self.listener_windows.0, self.listener_windows.1], "client_buffer": self.client_buffer,
             "listener_buffer": self.listener_buffer, "auto_credit": self.auto_credit, "manual_credit": self.manual_credit, "snd_mode": self.snd_mode, "rcv_second": self.rcv_second,
-            "max_message_size": self.max_message_size, "batchable": self.batchable, "send_pause": self.send_pause, "recv_pause": self.recv_pause, "chunk": self.chunk, "multi_thread": self.multi_thread, "initial_dc": self.initial_dc, "recv_drop": self.recv_drop, "auto_accept": self.auto_accept})
+            "max_message_size": self.max_message_size, "batchable": self.batchable, "send_pause": self.send_pause, "recv_pause": self.recv_pause, "chunk": self.chunk, "multi_thread": self.multi_thread, "initial_dc": self.initial_dc, "recv_drop": self.recv_drop, "auto_accept": self.auto_accept, "restate": self.restate})
     }
     pub fn from_json(j: &J) -> Option<Case> {
         let v8 = |k: &str| -> Option<Vec<u8>> { Some(j.get(k)?.as_array()?.iter().filter_map(|x| x.as_u64().map(|v| v as u8)).collect()) };
@@ -105,6 +108,7 @@ impl Case {
             initial_dc: j.get("initial_dc").and_then(|x| x.as_u64()).unwrap_or(0) as u32,
             recv_drop: v8("recv_drop").unwrap_or_default(),
             auto_accept: j.get("auto_accept").and_then(|x| x.as_bool()).unwrap_or(false),
+            restate: j.get("restate").and_then(|x| x.as_bool()).unwrap_or(false),
         })
     }
 }
@@ -136,6 +140,7 @@ pub fn gen_case(rng: &mut Rng, multi_thread: bool) -> Case {
         multi_thread,
         initial_dc: *rng.pick(&[0u32, 0, 0, 0xFFFF_FFFF, 0xFFFF_FFFE, 0xFFFF_FFFB]),
         auto_accept: rng.chance(1, 3),
+        restate: rng.chance(1, 3),
         recv_drop: if rng.chance(1, 3) { (0..n).map(|_| *rng.pick(&[0u8, 0, 1, 1, 2, 3])).collect() } else { vec![0; n] },
     }
 }
@@ -232,6 +237,16 @@ fn parse_stream(bytes: &[u8], obs: &mut Observed) {
             let mut de = serde_amqp::de::Deserializer::new(reader);
             Performative::deserialize(&mut de)
         };
+        if std::env::var("VERIF_TRACE_FLOWS").is_ok() {
+            match &perf {
+                Ok(Performative::Flow(f)) => eprintln!("   flow dc={:?} credit={:?} drain={} echo={} nii={:?} iw={} noi={} ow={}", f.delivery_count, f.link_credit, f.drain, f.echo, f.next_incoming_id, f.incoming_window, f.next_outgoing_id, f.outgoing_window),
+                Ok(Performative::Transfer(t)) => eprintln!("   transfer id={:?} more={} settled={:?}", t.delivery_id, t.more, t.settled),
+                Ok(Performative::Disposition(d)) => eprintln!("   disposition {}..{:?} settled={} {:?}", d.first, d.last, d.settled, d.state.as_ref().map(|s| format!("{:?}", s).chars().take(12).collect::<String>())),
+                Ok(Performative::Attach(a)) => eprintln!("   attach role={:?} idc={:?}", a.role, a.initial_delivery_count),
+                Ok(Performative::Detach(d)) => eprintln!("   detach closed={} err={:?}", d.closed, d.error.as_ref().map(|e| format!("{:?}", e.condition))),
+                _ => {}
+            }
+        }
         if let Ok(Performative::Transfer(t)) = perf {
             let used = cur.position() as usize;
             let mut whole = t.clone();
@@ -291,11 +306,33 @@ async fn receiver_side(mut r: Receiver, case: Case) -> (Vec<Vec<u8>>, Vec<String
         if case.recv_pause[k] > 0 {
             tokio::time::sleep(Duration::from_millis(case.recv_pause[k] as u64)).await;
         }
+        // (a receiver accepted by a listener starts with Auto(200): what it finds may have been sent under that)
+        if manual && credit_left == 0 && case.restate && k > 0 && !case.client_sends {
+            // all the credit is used up: an application that looks into the link now finds nothing — the
+            // sender has no credit to send anything under
+            match tokio::time::timeout(Duration::from_millis(50), r.recv::<Body<Value>>()).await {
+                Err(_) => {}
+                Ok(Ok(d)) => {
+                    got.push(encoded(d.message()));
+                    notes.push(format!("recv {}: a delivery although no credit was out", k));
+                    break;
+                }
+                Ok(Err(e)) => {
+                    notes.push(format!("recv {} (no credit out): {:?}", k, e));
+                    break;
+                }
+            }
+        }
         if manual && credit_left == 0 {
             if let Err(e) = r.set_credit(case.manual_credit).await {
                 notes.push(format!("set_credit: {:?}", e));
             }
             credit_left = case.manual_credit;
+        }
+        if manual && case.restate && credit_left > 0 {
+            if let Err(e) = r.set_credit(credit_left).await {
+                notes.push(format!("set_credit (restated): {:?}", e));
+            }
         }
         // an application that gives up on a `recv` (polled a few times, then dropped) and asks again; if
         // such an attempt happens to complete, its delivery counts
@@ -360,7 +397,7 @@ async fn scenario(case: Case) -> Result<Observed, String> {
         let mut conn = acc.accept(lio).await.map_err(|e| format!("accept: {:?}", e))?;
         let sacc = SessionAcceptor::builder().incoming_window(lc.listener_windows.0).outgoing_window(lc.listener_windows.1).buffer_size(lc.listener_buffer).build();
         let mut session = sacc.accept(&mut conn).await.map_err(|e| format!("session accept: {:?}", e))?;
-        let mut lb = LinkAcceptor::builder();
+        let mut lb = LinkAcceptor::builder().initial_delivery_count(lc.initial_dc);
         if lc.max_message_size > 0 && lc.client_sends {
             lb = lb.max_message_size(lc.max_message_size);
         }
@@ -417,6 +454,13 @@ async fn scenario(case: Case) -> Result<Observed, String> {
     // a frame may be as large as the RECEIVING side said it can take
     obs.negotiated_frame = if case.client_sends { case.listener_max_frame } else { case.client_max_frame };
     let stream = if case.client_sends { c2l.lock().unwrap().clone() } else { l2c.lock().unwrap().clone() };
+    if std::env::var("VERIF_TRACE_FLOWS").is_ok() {
+        eprintln!("--- receiver -> sender");
+        let other = if case.client_sends { l2c.lock().unwrap().clone() } else { c2l.lock().unwrap().clone() };
+        let mut scratch = Observed::default();
+        parse_stream(&other, &mut scratch);
+        eprintln!("--- sender -> receiver");
+    }
     parse_stream(&stream, &mut obs);
     Ok(obs)
 }
@@ -552,7 +596,7 @@ pub fn main(opts: &Opts) {
     }
     let mut rng = Rng::new(opts.seed ^ 0xc01);
     let mut corpus: Vec<Case> = vec![];
-    if let Ok(rd) = std::fs::read_dir("/verif/corpus/C01") {
+    if let Ok(rd) = std::fs::read_dir(format!("{}/C01", std::env::var("VERIF_CORPUS").unwrap_or_else(|_| "/verif/corpus".into()))) {
         let mut files: Vec<_> = rd.filter_map(|e| e.ok()).map(|e| e.path()).collect();
         files.sort();
         for f in files {
